@@ -79,7 +79,8 @@ def explore(tier, seed):
     chunks += [("bump", p, tier) for p in dict.fromkeys(bump_pats)]
     chunks += [("chain", p, 1000 if tier == "thorough" else 200) for p in ("{pycalver}", "{semver}")]
     chunks += [("dispatch", p, tier) for p in NAMED + pats[len(NAMED) :: 11]]
-    chunks += [("project-chain", p, 14 if tier == "quick" else 60) for p in PEP_MAPPED]
+    # (the last three: legacy patterns made only of upper-case placeholders - the engine choice of loader and commands must agree)
+    chunks += [("project-chain", p, 14 if tier == "quick" else 60) for p in PEP_MAPPED + ["{MAJOR}.{MINOR}.{PATCH}", "v{MAJOR}.{MINOR}", "r{MAJOR}"]]
     return pool.run_chunks(run_chunk, chunks)
 
 
@@ -293,8 +294,11 @@ def project_chain(st, pattern, length):
     state = state_for(pattern, dt.date(2020, 6, 15), "1001" if "bid" in fs else None, "final" if "tag" in fs else None)
     old = L.render(pattern, state)
     pep_old = str(pv.Version(old)) if bg.is_pep440(old) else old
+    # ({pep440_version} stands for the PEP 440 form of the named composite patterns only; other legacy patterns get the {version} entry alone)
+    with_pep = pattern in PEP_MAPPED
     cfg = (f'[bumpver]\ncurrent_version = "{old}"\nversion_pattern = "{pattern}"\n\n[bumpver.file_patterns]\n'
-           '"bumpver.toml" = [\'current_version = "{version}"\']\n"setup.py" = [\'version="{pep440_version}"\', "tag {version} "]\n')
+           '"bumpver.toml" = [\'current_version = "{version}"\']\n"setup.py" = ['
+           + ('\'version="{pep440_version}"\', ' if with_pep else '') + '"tag {version} "]\n')
     world.write_tree({"bumpver.toml": cfg.encode(), "setup.py": f'setup(version="{pep_old}")\n# tag {old} \n'.encode()})
     tags = ["post", "dev", "beta", "final", "rc", "alpha", "post", "final", "dev"]
     date = dt.date(2020, 6, 15)
@@ -306,6 +310,10 @@ def project_chain(st, pattern, length):
             flags += ["--tag", tags[i % len(tags)]]
         if "patch" in fs:
             flags += ["--patch"]
+        elif "minor" in fs:
+            flags += ["--minor"]
+        elif "major" in fs:
+            flags += ["--major"]
         o = world.cli("update", "--no-fetch", *flags)
         st.evaluations += 1
         st.transitions += 1
@@ -325,7 +333,7 @@ def project_chain(st, pattern, length):
             st.outcomes["violation"] += 1
             st.violation(f"C20:project-chain-file-disagrees:{pattern}", case, {"file": text, "announced": new})
             break
-        if bg.is_pep440(new):
+        if bg.is_pep440(new) and with_pep:
             try:
                 same = pv.Version(m.group(1)) == pv.Version(new)
             except pv.InvalidVersion:
